@@ -97,7 +97,8 @@ class Report:
         code = 0
         # vacuity: a rule matching fewer instances than confirmed by hand is analysis-broken
         for rid, r in self.rules.items():
-            if r["instances"] < r["floor"]:
+            # a rule that reports a violation explains its own missing instances (the violating construct is what vanished)
+            if r["instances"] < r["floor"] and r["violations"] == 0:
                 print(f"ANALYSIS-ERROR property={self.pid} rule={rid}: matched {r['instances']} instance(s), "
                       f"floor is {r['floor']} (the rule has gone vacuous or its anchors moved)")
                 code = 2
@@ -117,7 +118,7 @@ class Report:
                 json.dump({"property": self.pid, **v}, fh, indent=1, default=str)
             print(f"  {v['at']}: [{v['rule']}] {v['key']}: {v['msg']}")
             print(f"VIOLATION property={self.pid} replay={path}")
-        if real and code == 0:
+        if real:
             code = 1
         for n in self.notes:
             print(f"note: {n}")
